@@ -25,13 +25,76 @@ def shcap(cfg):
     return cfg[0] in (0, 1)
 
 
+def apply_f(fid, v):
+    """the harness functor (harness/deferred_drv.cpp)"""
+    return v * 16 + fid if fid < 100 else fid
+
+
 def timed(cfg):
     return cfg[0] in (0, 2)
 
 
 # ----------------------------------------------------------------------------- generator
 
+BURST_SIZES = (31, 32, 33, 63, 64, 65, 127, 128, 129, 200, 257)
+
+
+def gen_burst(rng, n=None, mk=None):
+    """size-boundary family: a reader keeps a handle while one or two submitters queue a burst of n modifications
+    (functor ids >= 100: the payload is the last functor applied); the reader releases, and then accesses made
+    with nothing held must find every accepted modification applied"""
+    if n is None:
+        n = rng.weighted([(3, 31), (3, 32), (3, 33), (4, 63), (4, 64), (6, 65), (2, 127), (2, 128), (3, 129), (1, 200), (1, 257)])
+    if mk is None:
+        mk = rng.weighted([(5, 0), (3, 1), (1, 2), (1, 3)])
+    nsub = rng.range(1, 2)
+    subs = [[] for _ in range(nsub)]
+    steps = []
+    for i in range(n):
+        u = rng.below(nsub)
+        if rng.chance(3, 4):
+            subs[u].append([DETACH, 100 + i])
+            steps += [(1 + u, 0)] * 5
+        else:
+            subs[u].append([ASYNC, 100 + i, rng.below(2)])
+            steps += [(1 + u, 0)] * 7
+    reader = [[LOCK_SH, 0], [RELEASE, 0]]
+    tail = rng.below(3)
+    if tail == 0:
+        reader += [[LOCK_SH, 1], [READ, 1], [RELEASE, 1], [LOAD]]
+    elif tail == 1:
+        reader += [[LOAD], [TRY_SH, 1], [READ, 1], [RELEASE, 1]]
+    else:
+        reader += [[TRY_SH, 1], [READ, 1], [RELEASE, 1], [LOAD]]
+    for u in range(nsub):
+        if rng.chance(1, 2):
+            subs[u].append([FUT_GET, rng.below(2)])
+    sched = [(0, 0)] * 3 + steps + [(0, 0)] * (2 + 7 * n + 30)
+    return {'cfg': [mk], 'progs': [reader] + subs, 'sched': sched}
+
+
+def gen_two_submitters(rng):
+    """boundary-aimed: two submitters queue behind a reader's handle, the first one pre-empted somewhere inside its
+    call (before / after its push, before its flag store); the reader releases and a direct modification or an
+    access follows before the first submitter goes on"""
+    mk = rng.weighted([(5, 0), (3, 1), (1, 2), (1, 3)])
+
+    def sub(f):
+        return [DETACH, f] if rng.chance(2, 3) else [ASYNC, f, 0]
+    p0 = [[LOCK_SH, 0], [RELEASE, 0]] + ([[LOAD]] if rng.chance(1, 2) else [])
+    p1 = [sub(1)] + ([[LOAD]] if rng.chance(1, 2) else [[FUT_GET, 0]])
+    p2 = [sub(2), rng.pick([[DETACH, 3], [LOAD], [ASYNC, 3, 1], [LOCK_SH, 1]])] + ([[LOAD]] if rng.chance(1, 2) else [])
+    cw = ((14, 0), (2, 2))
+    sched = [(0, 0)] * 3 + [(1, 0)] * rng.range(2, 7) + [(2, 0)] * rng.range(4, 8) + [(0, 0)] * 2 + [(2, 0)] * rng.range(2, 12)
+    sched += R.sched_random(rng, 3, rng.range(0, 60), cw)
+    return {'cfg': [mk], 'progs': [p0, p1, p2], 'sched': sched}
+
+
 def gen(rng, tier, spec):
+    if tier != 'small' and rng.chance(1, 60):
+        return gen_burst(rng)
+    if tier != 'small' and rng.chance(1, 20):
+        return gen_two_submitters(rng)
     nt = rng.weighted([(1, 1), (6, 2), (6, 3), (2, 4)])
     mk = rng.weighted([(5, 0), (3, 1), (2, 2), (2, 3)])
     fid = [0]
@@ -297,8 +360,8 @@ class Walk:
                 if f is None:
                     self.bad('payload', 'payload written outside a functor at line %d' % i)
                 else:
-                    if v != pay * 16 + f:
-                        self.bad('payload', 'functor %d wrote %d at line %d, expected %d (payload %d)' % (f, v, i, pay * 16 + f, pay))
+                    if v != apply_f(f, pay):
+                        self.bad('payload', 'functor %d wrote %d at line %d, expected %d (payload %d)' % (f, v, i, apply_f(f, pay), pay))
                     wend[f] = (i, v)
                     running[t] = None
                 pay = v
@@ -394,7 +457,9 @@ def mon_lost(case, lines):
     while x > 0:
         digits.append(x % 16)
         x //= 16
-    if sorted(digits) != sorted(f for f in done if f not in w.threw):
+    if any(f >= 100 for f in sub):
+        pass        # burst functors overwrite the payload: `pay == last value written` (above) is the check
+    elif sorted(digits) != sorted(f for f in done if f not in w.threw):
         return 'final payload log %s is not the set of functors applied without exception %s' % (digits[::-1], sorted(f for f in done if f not in w.threw))
     alive = sum(w.held)
     if (free != 1 or nsh != 0) and alive == 0:
@@ -554,6 +619,40 @@ def mon_reader_refused_by_reader(case, lines):
             'was not read as true: entering readers exclude one another' % (lines[i][0], i))
 
 
-MONITORS = {'reader_refused_by_reader': mon_reader_refused_by_reader, 'try_null_iff': mon_try_null_iff, 'try_blocks': mon_try_blocks, 'fault': mon_fault, 'twice': mon_twice, 'exclusive': mon_exclusive, 'order': mon_order, 'stranded': mon_stranded,
+def mon_functor_under_list_lock(case, lines):
+    """C06: queued functors run after the pending list has been swapped out, never under the list's own mutex
+    (a functor that submits a modification - to its own object or to another one - would otherwise wait for a
+    list lock held by a drainer: self-deadlock, or a lock-order cycle between two objects).  A list mutex is
+    recognised by its use in a push: `lock x; unlock x; store flag=1` by one thread."""
+    last = {}                           # per thread: the last three events
+    lists = set()
+    for l in lines:
+        if len(l) != 5 or l[0] < 0:
+            continue
+        t, k, o, v, m = l
+        h = last.setdefault(t, [])
+        if k == K['STORE'] and v == 1 and len(h) >= 2 and h[-1][1] == K['UNLOCK'] and h[-2][1] == K['LOCK'] and h[-1][2] == h[-2][2]:
+            lists.add(h[-1][2])
+        h.append(l)
+        del h[:-3]
+    holder = {}
+    for i, l in enumerate(lines):
+        if len(l) != 5 or l[0] < 0:
+            continue
+        t, k, o, v, m = l
+        if o in lists:
+            if k == K['LOCK']:
+                holder[o] = t
+            elif k == K['UNLOCK'] and holder.get(o) == t:
+                del holder[o]
+        elif k == K['CALL']:
+            mine = [x for x, u in holder.items() if u == t]
+            if mine:
+                return ('functor %d invoked by thread %d at trace line %d while that thread holds the mutex of a pending list '
+                        '(object %d): user code runs under the list lock' % (v, t, i, mine[0]))
+    return None
+
+
+MONITORS = {'functor_under_list_lock': mon_functor_under_list_lock, 'reader_refused_by_reader': mon_reader_refused_by_reader, 'try_null_iff': mon_try_null_iff, 'try_blocks': mon_try_blocks, 'fault': mon_fault, 'twice': mon_twice, 'exclusive': mon_exclusive, 'order': mon_order, 'stranded': mon_stranded,
             'lost': mon_lost, 'payload': mon_payload, 'future': mon_future, 'exn': mon_exn, 'lock_leaked': mon_lock_leaked,
             'deadlock': mon_deadlock, 'seq_cst': mon_seq_cst, 'trace': mon_trace}
